@@ -1,8 +1,8 @@
 package engine
 
 import (
-	"context"
 	"bytes"
+	"context"
 	"encoding/hex"
 	"encoding/json"
 	"errors"
@@ -30,27 +30,27 @@ import (
 
 // SHist is one store-level operation in the recorded history.
 type SHist struct {
-	Client  string
-	Phase   int
-	Idx     int
-	Op      *SOp
-	Key     string
-	ValID   string // set: id of the value written
-	Val     []byte
-	Inv     uint64
-	Ret     uint64 // 0: never returned (killed)
-	OK      bool
-	NotEx   bool
-	Err     string
-	Got     []byte
-	TimedOut bool  // the backend's operation timeout ended the call; the operation itself may still be running
-	GotID   string // get: id of the value returned ("" if not one of the values set)
-	Keys    []string
-	API     bool
-	Status  int
-	Isolate string // buffer-isolation result
-	Skipped bool
-	File    []byte // fsenc: raw content of the key's file after a Set
+	Client   string
+	Phase    int
+	Idx      int
+	Op       *SOp
+	Key      string
+	ValID    string // set: id of the value written
+	Val      []byte
+	Inv      uint64
+	Ret      uint64 // 0: never returned (killed)
+	OK       bool
+	NotEx    bool
+	Err      string
+	Got      []byte
+	TimedOut bool   // the backend's operation timeout ended the call; the operation itself may still be running
+	GotID    string // get: id of the value returned ("" if not one of the values set)
+	Keys     []string
+	API      bool
+	Status   int
+	Isolate  string // buffer-isolation result
+	Skipped  bool
+	File     []byte // fsenc: raw content of the key's file after a Set
 }
 
 type keyLister interface {
@@ -1006,7 +1006,7 @@ type regIn struct {
 }
 type regOut struct {
 	ok, notex, failed, never bool
-	id                      string
+	id                       string
 }
 
 const absent = "\x00absent"
@@ -1097,7 +1097,7 @@ func judgeLinearizable(r *Run, j *Judged, vfail func(prop, rule, sig string, h *
 			}
 			in := regIn{kind: strings.TrimSuffix(strings.TrimSuffix(h.Op.Kind, "-mutate"), "-same"), id: h.ValID}
 			out := regOut{ok: h.OK, notex: h.NotEx, failed: !h.OK && !h.NotEx, id: h.GotID, never: h.Ret == 0}
-			if in.kind == "get" && h.OK && (h.GotID == "" ) {
+			if in.kind == "get" && h.OK && (h.GotID == "") {
 				out.id = ""
 			}
 			retSeq := h.Ret
